@@ -292,4 +292,11 @@ size_t vh_call_encoder(int e, uint64_t v, uint8_t* buf, size_t n);
 cbor_item_t* ser_build_variant(const rnode* n, struct vh_rng* r);
 rnode* ser_api_shadow(uint64_t u, uint64_t seed, struct vh_rng* r);
 
+/* read-only API groups (d_ro.c), shared with the thread driver */
+bool ro_apply(int fn, const cbor_item_t* it, unsigned char* out, size_t outn);
+int ro_count(void);
+extern const char* const ro_names[];
+void ro_each_node(const cbor_item_t* it, void (*cb)(const cbor_item_t*, void*), void* ud);
+const char* vh_errpath(void); /* where this child's stderr goes (sanitizer reports) */
+
 #endif
